@@ -37,6 +37,7 @@ type Obligation struct {
 	Model  string
 	Inherited       bool // counted for the property because a function under it relied on this function's contract
 	replayConfirmed bool
+	limit           int // per-stage solver limit this obligation ran with (seconds)
 	replayNote      string
 }
 
